@@ -65,8 +65,10 @@ def gen_content(rng, sizes=None):
 
 def unique_content(rng, size=None):
     """content that is different from every other unique_content() with overwhelming probability"""
-    size = size if size is not None else rng.choice([1, 3, 16, 33, 100, 257])
-    return {"gen": [rng.getrandbits(60), max(1, size)]}
+    # at least 9 bytes of a 60-bit seeded stream: two such contents (and their same-size rewrites) collide with
+    # negligible probability -- 1- and 3-byte contents did collide and produced a false alarm in C17 (soak seed 101)
+    size = size if size is not None else rng.choice([9, 16, 33, 100, 257])
+    return {"gen": [rng.getrandbits(60), max(9, size)]}
 
 
 def gen_tree(rng, max_entries=12, max_depth=3, hostile=0.2, empty_dirs=True, unique=False, min_files=1,
